@@ -192,5 +192,10 @@ CLAIMS['C33'] = {
   'note': _TB + 'Command structure is a case parameter; float division by 4. is modelled as an exact quotient (valid below 2**53, checked); _draw_line is taken by contract (C31 is not claimed); angle turning (A, TA), P and WINDOW are not covered.',
 }
 
+CLAIMS['C13'] = {
+  'text': 'Per-operation proof on the real Program.store_line / find_pos_line_dict / update_line_dict / truncate / delete / rebuild_line_dict / erase / get_line_number (with the real Lister line-number decoding and the real CodeStream/TokenisedStream methods over a symbolic byte stream): every operation takes any state satisfying the representation invariant (memory = 00, link, number, body per line in ascending order + 00 00 00 terminator; link = address of the next line; line dictionary = {number: offset} + end marker; code size) to a state satisfying it for the reference model\'s result - insert at the sorted place, replace, delete (Undefined line number / Illegal function call when nothing matches, state unchanged), rebuild from the bytes alone, NEW. Line numbers and body bytes are symbolic; history properties follow by induction.',
+  'note': _TB + 'Number of lines (0..3) and body lengths are case parameters; bodies range over letters (token skipping, string literals, REM inside lines not exercised); LIST text, tokenisation, RENUM targets (C14), MERGE/LOAD (C15) are outside this check.',
+}
+
 NOT_APPLICABLE = {
 }
